@@ -80,6 +80,15 @@ def tree(case, log):
     return root
 
 
+def obs(x):
+    def names(l):
+        try:
+            return [type(c).__name__ for c in l()]
+        except Exception as ex:
+            return 'EXC:' + type(ex).__name__
+    return [ts(x), names(lambda: x.get_children(ordered=False)), names(lambda: x.get_children())]
+
+
 def checks(e):
     return [e.xsd_check] + [x for c in e.get_children(ordered=False) for x in checks(c)]
 
@@ -122,6 +131,7 @@ for case in job['cases']:
             ms.append(('remove-child', x, None))
         ms.append(('add-child', x, None))
         ms.append(('toggle-check', x, None))
+        ms.append(('recheck-add', x, None))
         return ms
     for side in ('copy', 'orig'):
         for mi in range(6):
@@ -129,11 +139,11 @@ for case in job['cases']:
             e2 = e
             c2 = copy.deepcopy(e2)
             tgt, other = (c2, e2) if side == 'copy' else (e2, c2)
-            before = ts(other)
+            before = obs(other)
             ms = mutations(tgt)
             if mi >= len(ms):
                 break
-            kind, nd, k = ms[mi] if mi < 2 else rng.choice(ms)
+            kind, nd, k = ms[mi] if mi < 2 else (ms[-1] if mi == 2 else rng.choice(ms))
             try:
                 if kind == 'remove-attr':
                     setattr(nd, k.replace('-', '_'), None)
@@ -145,9 +155,15 @@ for case in job['cases']:
                     nd.add_child(build(case['word'][-1], 1, []))
                 elif kind == 'toggle-check':
                     nd.xsd_check = not nd.xsd_check
+                elif kind == 'recheck-add' and case['word']:
+                    # both sides are switched to checking (whatever they were built with), then only one side gets a child
+                    nd.xsd_check = True
+                    other.xsd_check = True
+                    before = obs(other)
+                    nd.add_child(build(case['word'][-1], 1, []))
             except Exception:
                 pass
-            after = ts(other)
+            after = obs(other)
             if side == 'orig':
                 # restore: rebuild the original for the next round (mutating it in place would accumulate)
                 e = tree(case, [])
